@@ -128,6 +128,15 @@ def run(cfg, H):
         for i in range(n):
             one = pol.vector_vortex_retarder(ch, H.asarray([H.param('th%d' % i)]), retardance=d, rotate=rot)
             H.eq('batched vortex == element %d' % i, flatJ[i], one[0])
+        J0 = pol.vector_vortex_retarder(ch, th.copy(), retardance=d, rotate=0)
+        R = pol.jones_rotation_matrix(rot)
+        Rm = pol.jones_rotation_matrix(-rot)
+        H.eq('vortex(rotate) == R(-rotate) vortex(0) R(rotate)', J, Rm @ J0 @ R)
+        if ch == 0:
+            # a charge-0 vortex at retardance pi is diag(1,-1) conjugated by the rotation: a half wave plate at the rotate angle
+            Jh = pol.vector_vortex_retarder(0, 0 * th.copy(), rotate=rot)
+            hw = pol.half_wave_plate(theta=rot)
+            H.eq('charge-0 vortex at retardance pi == half wave plate at the rotate angle', Jh[(0,) * len(shp)], hw)
         Jpi = pol.vector_vortex_retarder(ch, th.copy(), rotate=rot)
         Jpi2 = pol.vector_vortex_retarder(ch, th.copy(), retardance=H.pi, rotate=rot)
         H.eq('default retardance is pi', Jpi, Jpi2)
